@@ -549,6 +549,57 @@ func extractC18Round2(c *Ctx, kf, mf, af *ast.File, create, activate, sale *ast.
 			c.P("Definition %s_calls : list string := %s.", strings.ToLower(name), CoqStrList(callSeq(f, "IterAllFnc", "Iterator", "ReverseIterator", "Paginate")))
 		}
 	}
+	// round 5: the signature-authorisation decorator decides per message: everything it decides with
+	// is declared inside the loop over the messages
+	if antef, err := c.Parse("x/paloma/ante.go"); err == nil {
+		ah := FindFunc(antef, "VerifyAuthorisedSignatureDecorator", "AnteHandle")
+		if ah == nil {
+			return fmt.Errorf("VerifyAuthorisedSignatureDecorator.AnteHandle not found")
+		}
+		declared := func(n ast.Node) []string {
+			var out []string
+			ast.Inspect(n, func(x ast.Node) bool {
+				switch d := x.(type) {
+				case *ast.FuncLit:
+					return false
+				case *ast.AssignStmt:
+					if d.Tok.String() == ":=" {
+						for _, l := range d.Lhs {
+							if id, ok := l.(*ast.Ident); ok && id.Name != "_" {
+								out = append(out, id.Name)
+							}
+						}
+					}
+				case *ast.ValueSpec:
+					for _, id := range d.Names {
+						out = append(out, id.Name)
+					}
+				}
+				return true
+			})
+			return out
+		}
+		var outer, inner []string
+		loops := 0
+		for _, st := range ah.Body.List {
+			if rs, ok := st.(*ast.RangeStmt); ok && c.Src(rs.X) == "msgs" {
+				loops++
+				inner = declared(rs.Body)
+				continue
+			}
+			if loops == 0 {
+				outer = append(outer, declared(st)...)
+			}
+		}
+		if loops != 1 {
+			return fmt.Errorf("VerifyAuthorisedSignatureDecorator.AnteHandle: expected one top-level loop over msgs, found %d", loops)
+		}
+		c.P("(* x/paloma/ante.go: VerifyAuthorisedSignatureDecorator.AnteHandle *)")
+		c.P("Definition ante_declared_before_loop : list string := %s.", CoqStrList(outer))
+		c.P("Definition ante_declared_per_message : list string := %s.", CoqStrList(inner))
+	} else {
+		return err
+	}
 	// the contract comparison operands of the sale handler (rounds 3-4: no decoding on either side)
 	c.P("(* x/skyway/abci.go *)")
 	c.P("Definition endblocker_defers_recover : bool := %v.", recovers)
